@@ -325,3 +325,55 @@ func H_C11_set_shared_scalars() {
 	verifAssert(hExact(want, hSnapAny(root)), "after SetTF the tree equals the reference: addressed slot = v, missing/wrong-kind intermediates replaced, lists padded with nil, everything else unchanged")
 	verifReach("end")
 }
+
+// the written value compares equal to the current occupant without being the same thing: a distinct container
+// with (possibly) the same content, or a float with the same numeric value and another bit pattern (-0.0 over 0.0).
+// GetTF(p) must yield v itself, and a later write below p must land in v.
+func H_C11_set_equal_but_distinct() {
+	x := nondetInt()
+	y := nondetInt() // the solver may choose y == x
+	f := hFiniteFloat()
+	g := hFiniteFloat() // the solver may choose g == f numerically with other bits
+	oldL := NewList(x)
+	oldO := NewObject("q", x)
+	var root any
+	var p string
+	rootIsList := nondetIntRange(0, 1) == 1
+	if rootIsList {
+		root = NewList(oldL, oldO, f)
+	} else {
+		root = NewObject("l", oldL, "o", oldO, "f", f, "n", NewObject("l", oldL))
+	}
+	which := nondetIntRange(0, 2)
+	if rootIsList {
+		p = []string{"#0", "#1", "#2"}[which]
+	} else {
+		if nondetIntRange(0, 1) == 0 {
+			p = []string{".l", ".o", ".f"}[which]
+		} else {
+			p = []string{".n.l", ".o", ".f"}[which]
+		}
+	}
+	switch which {
+	case 0:
+		v := NewList(y)
+		_, pn := hSetTFAny(root, p, v)
+		got, gp := hGetTFAny(root, p)
+		verifAssert(!pn && !gp && got == any(v), "GetTF(p) yields the identical container that was stored")
+		hSetTFAny(root, p+"#1", 7)
+		verifAssert(v.Count() == 2 && oldL.Count() == 1, "a later write below p lands in v, not in the container v replaced")
+	case 1:
+		v := NewObject("q", y)
+		_, pn := hSetTFAny(root, p, v)
+		got, gp := hGetTFAny(root, p)
+		verifAssert(!pn && !gp && got == any(v), "GetTF(p) yields the identical container that was stored")
+		hSetTFAny(root, p+".z", 7)
+		verifAssert(v.Count() == 2 && oldO.Count() == 1, "a later write below p lands in v, not in the container v replaced")
+	default:
+		_, pn := hSetTFAny(root, p, g)
+		got, gp := hGetTFAny(root, p)
+		gf, isF := got.(float64)
+		verifAssert(!pn && !gp && isF && verifFloatBits(gf) == verifFloatBits(g), "GetTF(p) yields v (the float that was written, bit for bit)")
+	}
+	verifReach("end")
+}
